@@ -25,7 +25,7 @@ def chunks(l, k):
     return [l[i:i + k] for i in range(0, len(l), k)]
 
 
-def par_run(binp, family, cases, timeout=60, batch=150, threads=None, env=None, mem_gb=4, single_timeout=10):
+def par_run(binp, family, cases, timeout=60, batch=150, threads=None, env=None, mem_gb=4, single_timeout=10, warnings=None):
     """run case lines in parallel batches; returns list of (case, line, crash) in order"""
     threads = threads or vlib.NPROC
     parts = chunks(cases, max(1, min(batch, (len(cases) + threads - 1) // threads)))
@@ -33,7 +33,7 @@ def par_run(binp, family, cases, timeout=60, batch=150, threads=None, env=None, 
     def go(ch):
         asan = "-asan-" in os.path.basename(binp)
         return vlib.run_cases_robust(binp, [family], ch, timeout_per_batch=timeout, batch=len(ch) or 1, env=env,
-                                     mem_gb=None if asan else mem_gb, single_timeout=single_timeout)
+                                     mem_gb=None if asan else mem_gb, single_timeout=single_timeout, warnings=warnings)
     out = []
     with cf.ThreadPoolExecutor(threads) as ex:
         for r in ex.map(go, parts):
